@@ -53,7 +53,8 @@ def generate(rng, tier):
             op["dur"] = {"k": k, "mode": rng.choice(["exact", "exact", "half", "below", "above", "frac"]),
                          "frac": rng.random()}
         if rng.random() < 0.12:
-            op["fault"] = rng.choice([{"kind": "enospc", "at": rng.randint(1, 40)}, {"kind": "source", "at": rng.randint(1, 5)}])
+            op["fault"] = rng.choice([{"kind": "enospc", "at": rng.randint(1, 40)}, {"kind": "source", "at": rng.randint(1, 5)},
+                                      {"kind": "interrupt", "at": rng.randint(1, 300)}])
         ops.append(op)
     helpers = {"tchans_per_block": rng.choice([1, 2, 4, 16]), "fftlength": rng.choice([1, 2, 4, 8, 256]),
                "int_factor": rng.choice([1, 2, 3, 51]), "obs_length": rng.choice([0.001, 0.37, 1.0, 5.0, 300.0])}
